@@ -88,6 +88,10 @@ struct World<'a> {
     ranges: Vec<Option<[u8; 32]>>,
     /// a transient disk-write error is armed for the node's next first-copy write of a replicated record
     disk_err_armed: Vec<bool>,
+    /// node instances that were stopped by a restart: kept (never driven again) so that their tasks stay parked
+    zombies: Vec<NodeHost>,
+    /// pairs of nodes between which every message is lost
+    cut: BTreeSet<(usize, usize)>,
 }
 
 pub fn execute(plan: &Plan, entropy: u64) -> RunReport {
@@ -130,6 +134,8 @@ pub fn execute(plan: &Plan, entropy: u64) -> RunReport {
             foreign_keys: vec![],
             ranges: vec![None; plan.n_nodes as usize],
             disk_err_armed: vec![false; plan.n_nodes as usize],
+            zombies: vec![],
+            cut: BTreeSet::new(),
         };
         w.run().await;
         nhooks::gates_uninstall();
@@ -291,6 +297,15 @@ impl<'a> World<'a> {
     async fn deliver(&mut self, idx: usize) {
         let t = self.transit.remove(idx);
         self.rep.sched.write_u64(t.id);
+        if let Some(to) = t.to {
+            if self.cut.contains(&(t.from.min(to), t.from.max(to))) {
+                self.rep.fault("message_lost_in_partition");
+                self.rep.log(format!("net: #{} n{} -> n{to} lost (partitioned)", t.id, t.from));
+                drop(t);
+                self.drain().await;
+                return;
+            }
+        }
         match t.payload {
             Payload::Req { req, reply, held_at_send } => {
                 let Some(to) = t.to else {
@@ -642,6 +657,53 @@ impl<'a> World<'a> {
                         self.rep.log(format!("n{i}: responsible range set to the distance of its {}-th closest record of {}", *sel as usize % ds.len() + 1, ds.len()));
                     }
                 }
+                Step::Partition { a, b } => {
+                    let (a, b) = (*a as usize % self.hosts.len(), *b as usize % self.hosts.len());
+                    if a != b {
+                        self.cut.insert((a.min(b), a.max(b)));
+                        self.rep.fault("partition");
+                        self.rep.log(format!("net: n{a} and n{b} partitioned"));
+                    }
+                }
+                Step::Heal => {
+                    if !self.cut.is_empty() {
+                        self.cut.clear();
+                        self.rep.log("net: partitions healed");
+                    }
+                }
+                Step::Restart { node } => {
+                    let i = *node as usize % self.hosts.len();
+                    // a clean stop: everything the node has accepted locally completes first (what was
+                    // acknowledged to an uploader is durable); messages stay in transit
+                    self.pump_local().await;
+                    if !nhooks::gates_pending().is_empty() {
+                        self.rep.log(format!("restart of n{i} skipped: local work still pending"));
+                    } else {
+                        let (root, kp) = (self.hosts[i].root.clone(), self.hosts[i].keypair.clone());
+                        match NodeHost::build(i, root, kp, None, if self.plan.cache == 0 { None } else { Some(self.plan.cache) }, self.rewards) {
+                            Ok(h) => {
+                                let old = std::mem::replace(&mut self.hosts[i], h);
+                                self.zombies.push(old);
+                                let ids: Vec<PeerId> = self.hosts.iter().map(|h| h.peer).collect();
+                                for (j, p) in ids.iter().enumerate() {
+                                    if i != j {
+                                        self.hosts[i].driver.verif_add_peer(*p, peer_addr(j, p));
+                                    }
+                                }
+                                let fillers: Vec<PeerId> = self.fillers.iter().map(|(_, p)| *p).collect();
+                                for (k, p) in fillers.iter().enumerate() {
+                                    self.hosts[i].driver.verif_add_peer(*p, peer_addr(50 + k, p));
+                                }
+                                // the responsible range is not persisted
+                                self.ranges[i] = None;
+                                self.rep.fault("node_restarted");
+                                self.rep.log(format!("n{i} restarted from its directory ({} records indexed)", self.hosts[i].store().verif_index().len()));
+                                self.drain().await;
+                            }
+                            Err(e) => self.rep.harness_error = Some(format!("restart of n{i}: {e}")),
+                        }
+                    }
+                }
                 Step::DiskErr { node } => {
                     let i = *node as usize % self.hosts.len();
                     self.disk_err_armed[i] = true;
@@ -703,6 +765,10 @@ impl<'a> World<'a> {
             return;
         }
         // faults have stopped: bounded convergence
+        self.cut.clear();
+        for a in self.disk_err_armed.iter_mut() {
+            *a = false;
+        }
         let mut converged_at = None;
         for r in 0..self.plan.final_rounds {
             self.round(&format!("final {}", r + 1)).await;
